@@ -18,10 +18,91 @@ def plan(tier, seed):
     sp = progwork.shards(tier, 3000, 60000)
     from hv import realwork
     sp += realwork.shards('C01', tier)
+    sp += [{'kind': 'cli', 'year': y, 'n': 8 if tier == 'quick' else 150} for y in (2021, 2022, 2023)]
     return sp
 
 
+def run_cli(spec, tier, seed):
+    """CLI layer: what `habutax solve` prints must agree with what the trace of the
+    same file shows: 'Successfully solved!' only with nothing unimplemented,
+    missing or blocked; a failed run names every unimplemented line, every missing
+    input and the lines blocked behind them."""
+    import os
+    import re
+    import tempfile
+    from hv import scen, realwork, cli, hx
+    from hv.common import rng_for
+    from hv.monitors.c20 import write_ini
+    res = Result()
+    year = spec['year']
+    rng = rng_for('C01cli', seed, spec)
+    tmp = tempfile.mkdtemp(prefix='hv_c01_')
+    try:
+        for k in range(spec['n']):
+            fam = rng.choice(scen.FAMILIES)
+            p = scen.Persona(year, fam, f'c01cli:{seed}:{k}')
+            out0 = scen.solve_persona(p)
+            ans = dict(p.answers)
+            variants = [('full', ans)]
+            keys = sorted(ans)
+            if keys:
+                drop = rng.sample(keys, min(len(keys), rng.randint(1, 4)))
+                variants.append(('missing', {q: v for q, v in ans.items() if q not in drop}))
+                gates = [q for q in keys if ans[q] == 'no']
+                if gates:
+                    g = rng.choice(gates)
+                    variants.append(('flip', dict(ans, **{g: 'yes'})))
+            for name, amap in variants:
+                path = os.path.join(tmp, 'in.ini')
+                write_ini(path, amap)
+                args = ['solve', path, '--year', str(year)]
+                for f in p.forms():
+                    args += ['--form', f]
+                r = cli.run_cli(args)
+                q = scen.Persona(year, fam, p.key)
+                q.nc = p.nc
+                o2, tv2, _ = realwork.traced(q, file_map=dict(amap), refuse_from=0, forms=p.forms())
+                res.evaluations += 1
+                res.count('cli_runs')
+                rp = {'engine': 'cli', 'persona': p.describe(), 'variant': name, 'shard': spec}
+                said_ok = 'Successfully solved!' in r.stdout
+                said_fail = 'Failed to solve' in r.stdout
+                res.count('cli_' + ('abort' if r.exc is not None else 'solved' if said_ok else 'failed'))
+                if (r.exc is not None) != (o2.exc is not None):
+                    res.violation('C01|cli|abort-disagrees', f'{year} {fam} [{name}]: CLI {"raised " + type(r.exc).__name__ if r.exc else "finished"} but the same file in-process {"raised " + type(o2.exc).__name__ if o2.exc else "finished"}', rp)
+                    continue
+                if r.exc is not None:
+                    continue
+                U = set(tv2.unimpl)
+                Mi = {a[-1][1] for l, a in tv2.attempts.items() if a[-1][0] == 'missing_input'}
+                Bl = {l for l, a in tv2.attempts.items() if a[-1][0] == 'unmet_line'}
+                clean = not U and not Mi and not Bl
+                res.distinct.add(f'cli|{year}|{name}|{said_ok}|{bool(U)}|{bool(Mi)}|{bool(Bl)}')
+                if said_ok and not clean:
+                    res.violation('C01|cli|says-solved-but-skipped', f'{year} {fam} [{name}]: the CLI printed "Successfully solved!" although unimplemented={sorted(U)[:3]} missing={sorted(Mi)[:3]} blocked={sorted(Bl)[:3]}', rp)
+                if said_ok == said_fail:
+                    res.violation('C01|cli|no-verdict-printed', f'{year} {fam} [{name}]: stdout has neither/both verdict lines', rp)
+                if said_fail:
+                    listed_unimpl = set(re.findall(r'(?m)^- (\S+)$', r.stdout))
+                    listed_dep = set(re.findall(r'(?m)^(\S+) \(needed by: ', r.stdout))
+                    if not U <= listed_unimpl:
+                        res.violation('C01|cli|failure-omits-unimplemented', f'{year} {fam} [{name}]: the failure report omits unimplemented lines {sorted(U - listed_unimpl)[:3]}', rp)
+                    if not Mi <= listed_dep:
+                        res.violation('C01|cli|failure-omits-missing-input', f'{year} {fam} [{name}]: the failure report omits missing inputs {sorted(Mi - listed_dep)[:3]}', rp)
+                    deps = {a[-1][1] for l, a in tv2.attempts.items() if a[-1][0] == 'unmet_line'}
+                    if not deps <= listed_dep:
+                        res.violation('C01|cli|failure-omits-blocked', f'{year} {fam} [{name}]: the failure report omits the lines others are blocked behind {sorted(deps - listed_dep)[:3]}', rp)
+                if len(res.samples) < 1 and said_fail:
+                    res.sample({'persona': p.describe(), 'variant': name, 'stdout_head': r.stdout[:400]})
+    finally:
+        import shutil
+        shutil.rmtree(tmp, ignore_errors=True)
+    return res
+
+
 def run_shard(spec, tier, seed):
+    if spec['kind'] == 'cli':
+        return run_cli(spec, tier, seed)
     if spec['kind'] == 'real':
         from hv import realwork
         return realwork.run_shard('C01', spec, tier, seed)
@@ -52,6 +133,8 @@ def finalize(res, tier):
     for k in ('verdict_solved', 'verdict_failed', 'verdict_abort'):
         if c.get(k, 0) < 20:
             res.inconclusive.append(f'too few executions with {k}: {c.get(k, 0)}')
+    if c.get('cli_failed', 0) < 5 or c.get('cli_solved', 0) < 5:
+        res.inconclusive.append('CLI layer: too few solved/failed runs')
     if c.get('ev_UNIMPL', 0) < 20 or c.get('ev_PROMPT', 0) < 20:
         res.inconclusive.append('too few unimplemented/prompt events observed')
     return {}
